@@ -7,6 +7,8 @@ import (
 	"bytes"
 	"encoding/json"
 	"fmt"
+	htmltemplate "html/template"
+	"sync"
 
 	"go.pennock.tech/tabular"
 	"go.pennock.tech/tabular/auto"
@@ -15,6 +17,7 @@ import (
 	tjson "go.pennock.tech/tabular/json"
 	"go.pennock.tech/tabular/markdown"
 	"go.pennock.tech/tabular/texttable"
+	"go.pennock.tech/tabular/texttable/decoration"
 )
 
 var c10Paths = []string{"core", "csv.New", "html.New", "json.New", "markdown.New", "texttable.New",
@@ -63,6 +66,37 @@ type C10Variant struct {
 	BuildFirst bool     `json:"build_first"`   // build through the created object before nesting (else through the outermost wrapper)
 	Entry      int      `json:"entry"`         // 0 Wrap.Render 1 pkg Render 2 Wrap.RenderTo 3 auto.Render 4 pkg RenderTo 5 auto.RenderTo
 	Pre        []string `json:"pre,omitempty"` // formats rendered (and discarded) from the same object before the target
+	// Poison: before anything else, renders of ANOTHER table fail in every format
+	// (json on an unencodable item; the others on a failing writer)
+	Poison bool `json:"poison,omitempty"`
+	// TargetFirst: the target format's wrapper is made before the Pre renders
+	// (and before any later Wrap registers its callbacks) and used at the end
+	TargetFirst bool `json:"target_first,omitempty"`
+	// Reentrant (html with a row-class generator): the generator renders another table
+	Reentrant bool `json:"reentrant,omitempty"`
+}
+
+var c10Once sync.Once
+
+// an application-registered decoration whose name has upper-case letters
+func c10Register() {
+	c10Once.Do(func() {
+		d := decoration.UTF8BoxLight()
+		d.TopLeft, d.TopRight = "*", "*"
+		decoration.RegisterDecorationName("Acme-Box", d)
+	})
+}
+
+func c10Poison() {
+	bad := tabular.New()
+	bad.AddHeaders("h1", "h2")
+	bad.AddRowItems("fine", "too")
+	bad.AddRowItems("x", make(chan int))
+	capture(func() (string, error) { return tjson.Render(bad) })
+	for _, w := range []RenderW{csv.Wrap(bad), markdown.Wrap(bad), html.Wrap(bad), texttable.Wrap(bad), tjson.Wrap(bad)} {
+		w := w
+		capture(func() (string, error) { return "", w.RenderTo(&collectWriter{failAt: -2}) })
+	}
 }
 
 type C10Spec struct {
@@ -96,7 +130,11 @@ func c10Style(sp C10Spec, alt bool) string {
 }
 
 func c10Render(sp C10Spec, v C10Variant) Outcome {
+	c10Register()
 	return capture(func() (string, error) {
+		if v.Poison {
+			c10Poison()
+		}
 		obj := c10Create(v.Path)
 		if v.BuildFirst {
 			sp.Table.Build(obj)
@@ -106,6 +144,40 @@ func c10Render(sp C10Spec, v C10Variant) Outcome {
 		}
 		if !v.BuildFirst {
 			sp.Table.Build(obj)
+		}
+		htmlWrap := func() *html.HTMLTable {
+			ht := html.Wrap(obj)
+			if sp.Decor == "gen" {
+				ht.SetRowClassGenerator(func(n int, _ interface{}) htmltemplate.HTMLAttr {
+					if v.Reentrant {
+						other := tabular.New()
+						other.AddHeaders("o1", "o2")
+						other.AddRowItems("inner", n)
+						capture(func() (string, error) { return html.Wrap(other).Render() })
+					}
+					return htmltemplate.HTMLAttr(fmt.Sprintf("r%d", n))
+				}, nil)
+			}
+			return ht
+		}
+		var early RenderW
+		if v.TargetFirst {
+			switch sp.Fmt {
+			case "csv":
+				early = csv.Wrap(obj)
+			case "html":
+				early = htmlWrap()
+			case "json":
+				early = tjson.Wrap(obj)
+			case "markdown":
+				early = markdown.Wrap(obj)
+			case "text":
+				tt := texttable.Wrap(obj)
+				if sp.Decor != "" {
+					tt.SetDecorationNamed(sp.Decor)
+				}
+				early = tt
+			}
 		}
 		for _, k := range v.Pre {
 			pre := k
@@ -131,8 +203,17 @@ func c10Render(sp C10Spec, v C10Variant) Outcome {
 			return b.String(), nil
 		}
 		entry := v.Entry
+		if early != nil {
+			if entry%2 == 0 {
+				return early.Render()
+			}
+			return toBuf(func(w *bytes.Buffer) error { return early.RenderTo(w) })
+		}
 		if sp.Fmt == "html" && (entry == 1 || entry == 4) {
 			entry -= 1 // html has no package-level functions
+		}
+		if sp.Fmt == "html" && sp.Decor == "gen" && entry >= 3 {
+			entry -= 3 // auto cannot carry a generator
 		}
 		if sp.Fmt == "text" && sp.Decor != "" && (entry == 1 || entry == 4) {
 			entry -= 1 // package-level functions use the default decoration
@@ -157,9 +238,9 @@ func c10Render(sp C10Spec, v C10Variant) Outcome {
 			}
 		case "html":
 			if entry == 0 {
-				return html.Wrap(obj).Render()
+				return htmlWrap().Render()
 			}
-			return toBuf(func(w *bytes.Buffer) error { return html.Wrap(obj).RenderTo(w) })
+			return toBuf(func(w *bytes.Buffer) error { return htmlWrap().RenderTo(w) })
 		case "json":
 			switch entry {
 			case 0:
@@ -233,6 +314,13 @@ func c10Variants(r *RNG, tier string) []C10Variant {
 		vs = append(vs, C10Variant{Path: p, Nest: []string{c10Kinds[i%5]}, BuildFirst: i%2 == 0, Entry: i % 6, Pre: []string{"text", "markdown", "text"}})
 		vs = append(vs, C10Variant{Path: p, BuildFirst: true, Entry: (i + 3) % 6, Pre: []string{"markdown", "text", "csv"}})
 	}
+	// failed renders of another table first; the target's wrapper made early; a re-entrant generator
+	for i, p := range c10Paths {
+		vs = append(vs, C10Variant{Path: p, BuildFirst: true, Entry: i % 6, Poison: true})
+		vs = append(vs, C10Variant{Path: p, BuildFirst: i%2 == 0, Entry: (i % 2) * 2, TargetFirst: true, Pre: []string{"text", "text", "markdown"}})
+		vs = append(vs, C10Variant{Path: p, BuildFirst: true, Entry: 2 - (i%2)*2, TargetFirst: true, Pre: []string{"markdown", "text", "text"}, Nest: []string{c10Kinds[i%5]}})
+		vs = append(vs, C10Variant{Path: p, BuildFirst: true, Entry: (i % 2) * 2, Reentrant: true})
+	}
 	// depth 2 and 3 nestings
 	deep := 12
 	if tier == "thorough" {
@@ -258,7 +346,7 @@ func c10Text(r *RNG) ItemSpec {
 	return Str(pick(r, []string{"a", "bb", "x y", "", "q\"r", "l1\nl2", "é", "<&>", "p|q", "1,2", "日本", "wide　x"}))
 }
 
-var c10Fmts = []struct{ f, d string }{{"csv", ""}, {"html", ""}, {"json", ""}, {"markdown", ""}, {"text", ""}, {"text", "ascii-simple"}}
+var c10Fmts = []struct{ f, d string }{{"csv", ""}, {"html", ""}, {"html", "gen"}, {"json", ""}, {"markdown", ""}, {"text", ""}, {"text", "ascii-simple"}, {"text", "Acme-Box"}}
 
 func init() {
 	kindCode := map[string]int{"csv": 0, "html": 1, "json": 2, "markdown": 3, "text": 4}
